@@ -154,10 +154,16 @@ def post_volume(ctx, call):
     P = np.asarray(c, dtype=float)
     k = len(P) - 1
     E = P[1:] - P[0]
-    G = E @ E.T
-    want = math.sqrt(max(0.0, np.linalg.det(G))) / math.factorial(k)
+    # exact Gram determinant of the (dyadic rational) float coordinates: the reference has no rounding noise of its own
+    Ex = [[F(float(x)) for x in row] for row in E]
+    Gx = [[sum(a * b for a, b in zip(r, s)) for s in Ex] for r in Ex]
+    want2 = max(F(0), X.det(Gx)) / math.factorial(k) ** 2
+    want = math.sqrt(float(want2))
     got = float(np.real(call.result))
-    ok = abs(got - want) <= 1e-7 * max(1.0, want)
+    # the library takes a square root of a float (Cayley-Menger) determinant: near-degenerate simplices are compared in volume^2 with the
+    # rounding bound eps * (Hadamard bound of the Gram determinant)
+    had = float(np.prod(np.sum(E * E, axis=1))) / math.factorial(k) ** 2
+    ok = abs(got - want) <= 1e-7 * max(1.0, want) or abs(got * got - float(want2)) <= 1e-11 * had
     ctx.judge("volume", ok, [P], what=f"Simplex.volume = {got}, Gram-determinant volume {want}", op="Simplex.volume", feat={"k": k, "dim": P.shape[1]}, nontrivial=True)
 
 
